@@ -63,6 +63,18 @@ def run(ctx):
         n = 24 if ctx.quick() else 300
         cfgs = [c for c in ctx.corpus if "pad" not in c] + [tu.gen_config(ctx.rng) for _ in range(n)]
 
+    if ctx.replay is None:
+        # WIDE data: fewer rows than sensors (many channels, a short record) - rows are still time, columns still sensors
+        for j in range(3 if ctx.quick() else 16):
+            wc = tu.gen_config(ctx.rng, joint=(j % 3 == 2))
+            for k_ in ("dtype", "completion", "flat"):
+                wc.pop(k_, None)
+            Nw = ctx.rng.choice([11, 14, 16])
+            wc.update({"N": Nw, "W": ctx.rng.choice([1, 2]), "K": 2, "regimes": 2, "m": 2, "limit": 2, "lam": 0.11, "eps": 0,
+                       "wide": True})
+            wc["lens"] = [ctx.rng.randint(8, Nw - 1)] if not wc["joint"] else [ctx.rng.randint(8, Nw - 1), ctx.rng.randint(8, Nw - 1)]
+            cfgs.append(wc)
+
     # ---------------- helpers, exhaustive over W x length
     lines, expect, gen_cases = [], [], []
     for (W, L) in pads:
@@ -98,6 +110,8 @@ def run(ctx):
         completed += 1
         check_result_shape(ctx, cfg, res, series)
         ctx.count(f"W={cfg['W']}")
+        if cfg.get("wide"):
+            ctx.count("runs_with_fewer_rows_than_sensors")
         nontrivial = cfg["W"] >= 2 and (not cfg["joint"] or len(cfg["lens"]) >= 2)
         ctx.case(("cfg", repr(sorted(cfg.items()))), nontrivial,
                  sample={k: cfg[k] for k in ("joint", "N", "W", "K", "lens")} if completed <= 4 else None)
